@@ -171,6 +171,11 @@ def run(ctx):
     ctx.assumptions += [
         "theorems are about the Lean model of propagate_flags (ot_shape.rs) and of the flag setters of buffer.rs; the "
         "model is tied to the crate by the flags-walks correspondence stream (hook: verif::ot_shape::propagate_flags)",
+        "C04_delin_backward_keeps_concat: removing a default ignorable (delete_glyphs_inplace, backward merge) keeps its "
+        "UNSAFE_TO_CONCAT on the run that takes over its cluster; tied to the crate by flags-carry + the carry-exact oracle and, "
+        "through shape(), by concat-redistribution-di (fonts without a space glyph, native right-to-left runs)",
+        "known class arabic-pcm-stch: decided per case from the cut and the difference (flagslib.stch_attribution): no cut inside a "
+        "mark + word span that apply_stch flags, only glyphs of marks whose stretch context changed differ",
         "that every other pass touches the flag bits only through the buffer primitives is not proved; it is monitored "
         "by the shape()-level hygiene search over corpus fonts (partial, as DESIGN.md §5 C04 says)",
     ]
